@@ -65,6 +65,34 @@ def library_panic(out):
     return None
 
 
+def library_hang(out):
+    """Go test-timeout output -> {"func","state","stack"} if some goroutine has been blocked for at least a minute INSIDE library code that a
+    harness frame called synchronously (the harness made a call into the library and never got it back), else None.  Only meaningful for
+    drivers whose doubles never block (opt-in per stage)."""
+    if "panic: test timed out after" not in out:
+        return None
+    for m in re.finditer(r"\ngoroutine \d+ \[([^\]]*\d+ minutes[^\]]*)\]:\n", out):
+        lines = out[m.end():].split("\n")
+        frames = []
+        k = 0
+        while k < len(lines) and lines[k].strip() and not lines[k].startswith("goroutine "):
+            if not lines[k].startswith("\t") and not lines[k].startswith("created by"):
+                frames.append(re.sub(r"\([^()]*\)$", "", lines[k].strip()))
+            k += 1
+        lib = [f for f in frames if f.startswith(MODPATH + "/") or f.startswith(MODPATH + ".")]
+        if not lib:
+            continue
+        first_lib = frames.index(lib[0])
+        # everything above the first library frame must be runtime / sync / time plumbing, and a harness frame must sit below it
+        above = frames[:first_lib]
+        if any(not (f.startswith("runtime.") or f.startswith("sync.") or f.startswith("time.") or f.startswith("internal/")) for f in above):
+            continue
+        if not any(f.startswith("verifharness/") for f in frames[first_lib:]):
+            continue
+        return {"func": lib[0][len(MODPATH):].lstrip("/."), "state": m.group(1), "stack": frames[:12]}
+    return None
+
+
 def log(*a):
     print("[verif]", *a, file=sys.stderr, flush=True)
 
@@ -396,9 +424,17 @@ class Ctx:
         self.stages.append({"go": os.path.basename(binpath), "test": test, "rc": r.returncode, "wall_s": round(time.time() - t, 1)})
         return r
 
-    def must_run_go(self, binpath, test, env=None, timeout=900, args=()):
+    def must_run_go(self, binpath, test, env=None, timeout=900, args=(), hang_rule=None):
         r = self.run_go(binpath, test, env=env, timeout=timeout, args=args)
         if r.returncode != 0:
+            lh = library_hang(r.stdout) if hang_rule else None
+            if lh:
+                # a call the driver made into the library has not returned for minutes although none of the driver's doubles ever blocks
+                # (virtual time): something the real code did, not a dead driver
+                self.violation({"rule": hang_rule, "func": lh["func"]},
+                               "%s: a call made by harness %s %s never returned: blocked in %s [%s]" % (
+                                   hang_rule, os.path.basename(binpath).split("_")[0], test, lh["func"], lh["state"]), detail=lh)
+                raise Crash("library call never returned: %s" % lh["func"])
             lp = library_panic(r.stdout)
             if lp:
                 # the process died of a panic raised INSIDE the library (on one of its own goroutines, where no caller can recover it):
